@@ -14,6 +14,7 @@ extern "C" {
 #include "array.cpp"
 #include "linepart.cpp"
 #include "polyline.cpp"
+#include "value_store.cpp"
 #include "values.h"
 #include "layout.h"
 
@@ -236,6 +237,12 @@ int main(void)
 				polyline::part p = *it;
 				(void) p.points(); (void) p.line();
 				++walked;
+			}
+			{
+				/* dereferencing and advancing the end position: an empty part, no movement */
+				polyline::iterator e = pl.end();
+				polyline::part pe = *e;
+				if (pe.points().size() || pe.line().size() || ++e != pl.end()) walked = -1;
 			}
 			printf("R %s n=%ld recs=", ok ? "ok" : "refused", np);
 			if (!np) fputc('-', stdout);
